@@ -25,6 +25,7 @@ META = dict(
     technique="ordered-merge form recogniser, boolean typing of flag stores, exhaustive decision table, affine index arithmetic",
 )
 META["text"] += ' R5 includes CVR.from_vote (the one-contest record the RAIRE reader builds: votes == {contest_id: vote}, id and phantom flag passed on).'
+META["text"] += ' R2 requires the union to be a new dict (an in-place update would write into a dict other records may share).'
 
 SPEC_TP = '''
 def spec(old, new):
